@@ -170,6 +170,8 @@ def c05_programs(rng, tier) -> List[Item]:
     items += gen_items(rng, cfg2, sizes(tier, 100, 1500), hist_all_ops, ops=("evaluate",))
     items += equal_hash_items(rng, sizes(tier, 20, 150))
     items += lifted_falsy_items(rng, sizes(tier, 15, 100))
+    items += shared_constant_items(rng, sizes(tier, 90, 450))
+    items += dataset_class_items(rng, sizes(tier, 30, 150))
     return items
 
 
@@ -195,6 +197,72 @@ def lifted_falsy_items(rng, n) -> List[Item]:
         for o in [{}, {"A": 5}, {"A": 0, "K": "x"}]:
             P.evaluate(root, o)
         items.append((P.to_json(), {}))
+    return items
+
+
+NESTED_CONSTANTS = [(["id", "name"], "W"), ({"a": [1]},), (([1],), 2), [[1], [2]], {"k": [1]}, ([],), [({"m": []}, 1)],
+                    ("s", 1, None), ((), [()])]
+
+
+def _has_tuple(x) -> bool:
+    if isinstance(x, tuple):
+        return True
+    if isinstance(x, list):
+        return any(_has_tuple(y) for y in x)
+    return isinstance(x, dict) and any(_has_tuple(y) for y in x.values())
+
+
+def shared_constant_items(rng, n) -> List[Item]:
+    """plain constants at every position where the library wraps one (switch branch and default, case result, coalesce
+    member, Iter member, lifted keyword, Option default, Map iterable) — tuples holding lists / dicts (only shallowly
+    immutable) included — consumed by code that edits what it receives in place (a body, or the caller editing the
+    result, also element by element while a Map is still producing): every evaluation yields what the eager
+    computation over the constant as written yields, whatever earlier evaluations or their consumers did"""
+    items = []
+    positions = ["switch", "switch_dflt", "case", "coalesce", "iter", "lift", "optdflt", "map", "map_lazy", "with"]
+    for i in range(n):
+        P = Prog()
+        c = copy.deepcopy(NESTED_CONSTANTS[i % len(NESTED_CONSTANTS)])
+        c2 = copy.deepcopy(NESTED_CONSTANTS[(i * 5 + 3) % len(NESTED_CONSTANTS)])
+        pos = positions[(i // len(NESTED_CONSTANTS)) % len(positions)] if n >= 90 else rng.choice(positions)
+        lazy = False
+        if pos == "switch":
+            e = P.switch(P.option("K", bare=True), [("x", P.value(c)), ("y", P.value(c2))], P.value(0))
+        elif pos == "switch_dflt":
+            e = P.switch(P.option("K", bare=True), [("q", P.value(1))], P.value(c))
+        elif pos == "case":
+            e = P.case(P.option("K"), [(P.fnvalue("eq", "x"), P.value(c))], P.value(c2))
+        elif pos == "coalesce":
+            e = P.coalesce([P.option("Q"), P.value(c)])
+        elif pos == "iter":
+            e = P.collection("list", [P.value(c), P.option("K"), P.value(c2)])
+        elif pos == "lift":
+            e = P._node("funapp", f=P.fnvalue(P.free(f"lc{i}")), args=[], kw=[["u", P.value(c)], ["v", P.option("K")]], lift=1)
+        elif pos == "optdflt":
+            e = P.option("Q", dflt=P.value(c))
+        elif pos == "with":
+            e = P.with_options(P.option("Z"), {"Z": c if not isinstance(c, tuple) else [list(c)]})
+        else:
+            # (what a Map iterates are option values: JSON-like, so no tuples here — a tuple placed in an option dictionary
+            # is handed out as it is, by Option.evaluate as by plain Python)
+            js = [x for x in NESTED_CONSTANTS if not _has_tuple(x)]
+            c, c2 = copy.deepcopy(js[i % len(js)]), copy.deepcopy(js[(i + 1) % len(js)])
+            e = P.map(P.collection("list", [P.option("M"), P.option("K")]), [("M", P.value([c, c2, copy.deepcopy(c)])), ("N", P.value([1, 2]))])
+            lazy = pos == "map_lazy"
+            if not lazy:
+                e = P.apply(e, P.fnvalue("py:list"))
+        how = rng.choice(["body", "result", "both"]) if not lazy else "result"
+        root = e
+        if how in ("body", "both") and not lazy:
+            root = P.apply(e, P.fnvalue(P.free(f"mut{i}", mutates=True)))
+        for o in [{"K": "x"}, {"K": "x"}, {"K": "y", "ZZ": 1}, {"K": "x", "Q": 5}, {"K": "x"}]:
+            kw: Dict[str, Any] = {}
+            if lazy:
+                kw["mutate_result"] = "lazy"
+            elif how in ("result", "both"):
+                kw["mutate_result"] = True
+            P.evaluate(root, o, **kw)
+        items.append((P.to_json(), {"position": pos}))
     return items
 
 
@@ -329,10 +397,86 @@ def hist_cached_vs_uncached(rng, cfg, g: G, meta, n_dicts=5):
     meta["pairs"] = pairs
 
 
+def reused_dict_items(rng, n) -> List[Item]:
+    """the caller keeps ONE dictionary object and edits it in place between calls (`o["A"] = 2; ds(o)`): every
+    evaluation — of a `cached(...)` node, a dataset, a node under a wrapper — still equals the one with caching off"""
+    items = []
+    for i in range(n):
+        P = Prog()
+        a, k = P.option("A"), P.option("S.X", dflt=P.value(0))
+        inner = rng.choice([lambda: P.collection("list", [a, k]),
+                            lambda: P.apply(a, P.fnvalue(P.free(f"g{i}"))),
+                            lambda: P.switch(P.option("K", bare=True), [("x", a)], k),
+                            lambda: P.template("{A}-{S.X}")])()
+        shape = i % 4
+        if shape == 0:
+            root = P.cached(inner)
+        elif shape == 1:
+            root = P.dataset([("v", inner)])
+        elif shape == 2:
+            root = P.with_options(P.cached(inner), {"Z": 1})
+        else:
+            root = P.collection("list", [P.cached(inner), P.dataset([("v", P.cached(a))])])
+        seq = [{"A": 1, "S": {"X": 1}}, {"A": 2, "S": {"X": 1}}, {"A": 2, "S": {"X": 2}, "K": "x"}, {"A": 1, "S": {"X": 1}},
+               {"A": 3, "S": {"X": 1, "Y": 0}}, {"A": 3, "S": {"X": 5, "Y": 0}}]
+        rng.shuffle(seq)
+        pairs = []
+        for o in seq:
+            P.evaluate(root, o, reuse_o=True)
+            P.evaluate(root, o, cache_off=True, reuse_o=True)
+            pairs.append((len(P.ops) - 2, len(P.ops) - 1))
+        items.append((P.to_json(), {"pairs": pairs}))
+    return items
+
+
+def section_inner_items(rng, n) -> List[Item]:
+    """a cached dataset that reads a whole section AND a key inside it (`Option("S")` with `Option("S.X")`, at several
+    depths), alone and specialised by pre-set / default options that supply part of the section; the history varies
+    OTHER keys of the section: every evaluation equals its cache-off twin"""
+    items = []
+    for i in range(n):
+        P = Prog()
+        sec, inner_key = rng.choice([("S", "S.X"), ("S", "S.U.V"), ("S.U", "S.U.V"), ("T", "T.X")])
+        params = [("sec", P.option(sec)), ("leaf", P.option(inner_key))]
+        if rng.random() < 0.5:
+            params.reverse()
+        if rng.random() < 0.3:
+            params.append(("b", P.option("B", dflt=P.value(0))))
+        kw: Dict[str, Any] = {}
+        leaf_val = rng.choice(["prod", 1])
+        preset: Dict[str, Any] = {}
+        _put(preset, inner_key, leaf_val)
+        style = i % 4
+        if style == 1:
+            kw["options"] = preset
+        elif style == 2:
+            kw["default_options"] = preset
+        d = P.dataset(params, **kw)
+        root = d
+        if style == 3:
+            root = P.derive(d, preset, default=rng.random() < 0.5)
+        pairs = []
+        other = {"S.X": "Y", "S.U.V": "W", "T.X": "Z"}[inner_key]
+        other_key = inner_key.rsplit(".", 1)[0] + "." + other
+        for hv in ["h1", "h2", "h1", "h3"]:
+            o: Dict[str, Any] = {}
+            _put(o, inner_key, leaf_val)
+            _put(o, other_key, hv)
+            if sec != inner_key.rsplit(".", 1)[0]:
+                _put(o, sec + ".Q", hv + "q")
+            P.evaluate(root, sort_json(o))
+            P.evaluate(root, sort_json(o), cache_off=True)
+            pairs.append((len(P.ops) - 2, len(P.ops) - 1))
+        items.append((P.to_json(), {"pairs": pairs, "overlay": [(a, b, "a dataset reading a section and a key inside it") for a, b in pairs]}))
+    return items
+
+
 def c01_programs(rng, tier) -> List[Item]:
     items = corpus_items("C01")
     cfg = Cfg(raising=False)
     items += gen_items(rng, cfg, sizes(tier, 250, 4000), hist_cached_vs_uncached)
+    items += reused_dict_items(rng, sizes(tier, 24, 120))
+    items += section_inner_items(rng, sizes(tier, 24, 120))
     return items
 
 
@@ -583,26 +727,72 @@ def effect_family_items(rng, n) -> List[Item]:
     return items
 
 
+STORED_VALUES = [None, 0, False, "", [], {}, (), 1, "v", [None], {"k": None}]
+
+
+def minimal_backend_items(rng, n) -> List[Item]:
+    """the documented minimal backend (a `Cache` subclass with `get` and `set` only; `exists` is the base class's) and
+    MemoryCache holding every kind of value — None and the other falsy ones included — in a diamond
+    top -> (left, right) -> shared: the shared dependency runs once per evaluation, never on an exact repeat or a
+    repeat with an unrelated key added, and its effect runs once per body execution"""
+    items = []
+    for i in range(n):
+        P = Prog()
+        kind = "getonly" if i % 3 != 2 else "memory"
+        v = copy.deepcopy(STORED_VALUES[i % len(STORED_VALUES)])
+        P.const_fn("shared_body", v)
+        eff = P.fnvalue(P.free("eff1"))
+        mk = lambda: P.new_cache(kind)      # noqa: E731  (one backend object per dataset)
+        if rng.random() < 0.7:
+            shared = P.dataset([("a", P.option("A"))], fn_name="shared_body", cache=mk(), effects=[eff])
+        else:
+            # the falsy value is what the callback returns
+            shared = P.dataset([("a", P.option("A"))], cache=mk(), callback=P.fnvalue("shared_body"), effects=[eff])
+        left = P.dataset([("s", shared), ("l", P.option("L", dflt=P.value(0)))], cache=mk())
+        right = P.dataset([("s", shared)], cache=mk())
+        top = P.dataset([("x", left), ("y", right)], cache=mk())
+        root = top if rng.random() < 0.7 else P.collection("list", [left, right, shared])
+        repeats = []
+        o1: Dict[str, Any] = {"A": rng.choice([1, "a", None])}
+        o2 = dict(o1, A=2)
+        P.evaluate(root, o1)
+        first = len(P.ops) - 1
+        for kind2, o in (("exact", o1), ("extra", dict(o1, ZZ9=1, ZY={"W": 1})), ("exact", o1)):
+            P.evaluate(root, sort_json(o))
+            repeats.append((first, len(P.ops) - 1, kind2))
+        P.evaluate(shared, o1)
+        repeats.append((first, len(P.ops) - 1, "member"))
+        P.evaluate(root, o2)
+        second = len(P.ops) - 1
+        P.evaluate(root, o2)
+        repeats.append((second, len(P.ops) - 1, "exact"))
+        items.append((P.to_json(), {"repeats": [r for r in repeats if r[2] != "member"], "member_repeats": [r for r in repeats if r[2] == "member"],
+                                    "bodies": _dataset_bodies(P), "family": []}))
+    return items
+
+
 def c02_programs(rng, tier) -> List[Item]:
     items = corpus_items("C02")
     cfg = Cfg(raising=False, all_options=False)
     items += gen_items(rng, cfg, sizes(tier, 300, 4000), hist_memo)
     items += effect_family_items(rng, sizes(tier, 60, 600))
+    items += minimal_backend_items(rng, sizes(tier, 44, 330))
     return items
 
 
 def c02_oracle(prog, meta, impl, model):
     out = []
     bodies = meta.get("bodies", {})
-    cached_bodies = {b["body"] for b in bodies.values() if b["body"] and b["cache"] == "memory"}
-    effect_names = {e for b in bodies.values() if b["cache"] == "memory" for e in b["effects"]}
-    for first, second, kind in meta.get("repeats", []):
+    STORES = ("memory", "getonly")      # (a get/set-only backend occurs with an all-behave script only in C02 programs)
+    cached_bodies = {b["body"] for b in bodies.values() if b["body"] and b["cache"] in STORES}
+    effect_names = {e for b in bodies.values() if b["cache"] in STORES for e in b["effects"]}
+    for first, second, kind in list(meta.get("repeats", [])) + list(meta.get("member_repeats", [])):
         if first >= len(impl) or second >= len(impl):
             continue
         a, b = impl[first], impl[second]
         if not (is_ok(a) and is_ok(b)):
             continue
-        if dumps(a["r"]) != dumps(b["r"]):
+        if kind != "member" and dumps(a["r"]) != dumps(b["r"]):
             out.append((f"repeated evaluation ({kind}) returned a different value", second, {"first": a["r"], "second": b["r"]}))
         ran = [c[0] for c in b.get("calls", []) if c[0] in cached_bodies]
         if ran:
@@ -630,7 +820,7 @@ def c02_oracle(prog, meta, impl, model):
             continue
         calls = o.get("calls", [])
         for ds, info in bodies.items():
-            if info["cache"] != "memory":
+            if info["cache"] not in STORES:
                 continue
             stored = [dumps(c[2]) for c in o.get("cache", []) if c[0] == info["cid"] and c[1] == "set"]
             if len(stored) != len(set(stored)):
@@ -700,10 +890,47 @@ def hist_keys_eval(rng, cfg, g: G, meta, n_dicts=4):
     meta["root"] = root
 
 
+MAP_KEY_PAIRS = [("S", "S.X"), ("S.X", "S"), ("S.X", "S.X"), ("A", "A"), ("S.U", "S.U.V"), ("S.U.V", "S.U"), ("S.X", "S.Y"),
+                 ("S.X", "S.XY"), ("AB", "A"), ("A", "AB"), ("S", "S.U.V"), ("T", "S.X")]
+
+
+def map_prefix_items(rng, n) -> List[Item]:
+    """a Map whose iterated key and the key its body reads are equal, unrelated, string prefixes of one another, or a
+    section and a key inside it (either way round; sections iterate dict-valued items), over dictionaries that contain
+    the section, part of it, or neither: keys() lists what is present and needed, no more and no less"""
+    items = []
+    for i in range(n):
+        P = Prog()
+        k_iter, k_read = MAP_KEY_PAIRS[i % len(MAP_KEY_PAIRS)]
+        sect = {"S": [{"X": 1, "Y": 2}, {"X": 3, "U": {"V": 4}}], "S.U": [{"V": 1}, {"V": 2, "W": 0}], "T": [{"X": 1}, {"Z": 2}]}
+        vals = sect.get(k_iter, [1, "v"])
+        body = rng.choice([lambda: P.option(k_read),
+                           lambda: P.collection("list", [P.option(k_read), P.option("B", dflt=P.value(0))]),
+                           lambda: P.option(k_read, dflt=P.value("d")),
+                           lambda: P.dataset([("r", P.option(k_read))], cache=P.new_cache("nocache"))])()
+        src = P.value(copy.deepcopy(vals)) if rng.random() < 0.6 else P.option("VS", dflt=P.value(copy.deepcopy(vals)))
+        m = P.map(body, [(k_iter, src)])
+        root = P.apply(m, P.fnvalue("py:list"))
+        if rng.random() < 0.3:
+            root = P.dataset([("m", root)])
+        triples = []
+        dicts: List[Dict[str, Any]] = [{}, {"S": {"X": 9, "Y": 8, "XY": 7, "U": {"V": 6, "W": 5}}, "A": 1, "AB": 2, "T": {"X": 0}},
+                                       {"S": {"Y": 1}}, {"S": {"U": {"W": 1}}, "B": 3}, {"A": 5}, {"AB": 5, "S": {"XY": 1}}]
+        for o in dicts:
+            P.raw_op(op="reset")
+            P.op("keys", root, o)
+            P.op("evaluate", root, o)
+            triples.append((len(P.ops) - 2, len(P.ops) - 1))
+        items.append((P.to_json(), {"ke": triples, "root": root}))
+    return items
+
+
 def c03_programs(rng, tier) -> List[Item]:
     items = corpus_items("C03")
     cfg = Cfg(raising=False, effects=True)
     items += gen_items(rng, cfg, sizes(tier, 250, 3000), hist_keys_eval)
+    items += map_prefix_items(rng, sizes(tier, 48, 240))
+    items += dataset_class_items(rng, sizes(tier, 30, 150))
     return items
 
 
@@ -1248,12 +1475,87 @@ def c06_derive_items(rng, n) -> List[Item]:
     return items
 
 
+DSC_NAMES = ["a", "b", "_rate", "_h", "Z", "c", "B", "_", "a1"]
+
+
+def dataset_class(P: Prog, rng, name: str, n_members: int, bases=(), override=(), keys=None, kinds=("option", "dataset", "value")):
+    """one dataset class: members over DSC_NAMES (single-underscore and upper-case names included) that are options on
+    distinct keys, datasets, constants (annotated), possibly redefining members of its bases"""
+    keys = keys if keys is not None else []
+    names = list(override) + [x for x in rng.sample(DSC_NAMES, len(DSC_NAMES)) if x not in override][:n_members]
+    members, annotated = [], []
+    for nm in names:
+        kind = rng.choice(kinds)
+        key = f"{name.upper()}.{nm.strip('_').upper() or 'U'}{len(keys)}"
+        if kind == "option":
+            keys.append(key)
+            members.append((nm, P.option(key, dflt=P.value(0) if rng.random() < 0.25 else None)))
+        elif kind == "dataset":
+            keys.append(key)
+            members.append((nm, P.dataset([("v", P.option(key))], cache=P.new_cache(rng.choice(["memory", "nocache"])))))
+        else:
+            members.append((nm, P.value(rng.choice([1, "c", None, [1]]))))
+            annotated.append(nm)
+    return P.dsclass(name, members, bases=bases, annotated=annotated)
+
+
+def dataset_class_items(rng, n) -> List[Item]:
+    """dataset classes — plain, derived from another dataset class (adding members, REDEFINING members, both), nested as
+    a member of another dataset class, as an argument of a dataset: instantiation evaluates exactly the members that
+    are in effect (a redefined member's base definition is not selected and does not run), once each, in `dir()` order;
+    explain / keys / validate cover exactly those members, underscore-named ones included"""
+    items = []
+    for i in range(n):
+        P = Prog()
+        keys: List[str] = []
+        base = dataset_class(P, rng, "Base", rng.randint(2, 3), keys=keys)
+        shape = i % 5
+        if shape == 0:
+            root = base
+        elif shape in (1, 2):
+            bnames = [m[0] for m in P.node(base)["dsclass"]["members"]]
+            over = rng.sample(bnames, rng.randint(1, len(bnames))) if shape == 1 else []
+            root = dataset_class(P, rng, "Sub", rng.randint(0 if over else 1, 2), bases=[base], override=over, keys=keys,
+                                 kinds=("option", "dataset"))
+            if rng.random() < 0.3:
+                bn = [m[0] for m in P.node(root)["dsclass"]["effective"]]
+                root = dataset_class(P, rng, "SubSub", 1, bases=[root], override=rng.sample(bn, 1), keys=keys, kinds=("option", "dataset"))
+        elif shape == 3:
+            outer_members = [("inner", base), ("q", P.option("OUTER.Q"))]
+            keys.append("OUTER.Q")
+            root = P.dsclass("Outer", outer_members)
+        else:
+            root = P.dataset([("rec", base), ("w", P.option("W", dflt=P.value(1)))])
+        full: Dict[str, Any] = {}
+        for k in keys:
+            _put(full, k, rng.choice([1, 2, "v"]))
+        order = list(keys)
+        rng.shuffle(order)
+        subs: List[Dict[str, Any]] = [{}]
+        cur: Dict[str, Any] = {}
+        for k in order:
+            _put(cur, k, ref_get(k, full)[1])
+            subs.append(copy.deepcopy(cur))
+        recs, agree, ke = [], [], []
+        for o in [subs[-1]] + subs[:5] + [subs[-1]]:
+            P.raw_op(op="reset")
+            b = len(P.ops)
+            for op in ("validate", "keys", "explain", "evaluate", "validate", "keys", "evaluate"):
+                P.op(op, root, sort_json(o))
+            recs.append({"x": b + 2, "k": b + 1, "v": b})
+            agree.append({"v": b, "k": b + 1, "x": b + 2, "e": b + 3, "wv": b + 4, "wk": b + 5, "we": b + 6})
+            ke.append((b + 1, b + 3))
+        items.append((P.to_json(), {"explain": recs, "agree": agree, "ke": ke, "root": root}))
+    return items
+
+
 def c06_programs(rng, tier) -> List[Item]:
     items = corpus_items("C06")
     items += c06_namespace_items(rng, sizes(tier, 15, 100))
     items += c06_derive_items(rng, sizes(tier, 15, 100))
     cfg = Cfg(raising=False, catch_unsafe=True)
     items += gen_items(rng, cfg, sizes(tier, 300, 4000), hist_all_ops, ops=("evaluate",))
+    items += dataset_class_items(rng, sizes(tier, 40, 200))
     return items
 
 
@@ -1441,6 +1743,7 @@ def c08_programs(rng, tier) -> List[Item]:
     cfg = Cfg(raising=False, all_options=True)
     items += gen_items(rng, cfg, sizes(tier, 250, 3000), hist_overlay)
     items += derived_family_items(rng, sizes(tier, 60, 600))
+    items += section_inner_items(rng, sizes(tier, 32, 160))
     return items
 
 
@@ -1502,7 +1805,49 @@ def c09_programs(rng, tier) -> List[Item]:
                     P.op(op, node, o)
                 meta["c09"].append({"e": len(P.ops) - 3, "k": len(P.ops) - 2, "x": len(P.ops) - 1, "node": node})
         items.append((P.to_json(), meta))
+    items += param_name_items(rng, sizes(tier, 44, 220))
     return items
+
+
+PARAM_NAMES = ["Name", "X", "P0", "_x", "my_Param", "pX9", "Z_", "__", "a", "NAME_1", "_"]
+NOT_PARAMS = [":9x:", ":a-b:", "::", ":a b:", ":a.b:", "a:", ":a", ":é:"]     # read as option keys, not parameters
+
+
+def param_name_items(rng, n) -> List[Item]:
+    """`{:name:}` parameters over the whole identifier alphabet (upper-case initials, underscores, digits after the
+    first character) and `{...}` entries that look like parameters but are not (read as option keys): parameters are
+    substituted and never reported as keys; the look-alikes are keys like any other"""
+    items = []
+    for i in range(n):
+        P = Prog()
+        names = [PARAM_NAMES[i % len(PARAM_NAMES)]] + rng.sample(PARAM_NAMES, rng.randint(0, 1))
+        names = list(dict.fromkeys(names))
+        fake = NOT_PARAMS[i % len(NOT_PARAMS)] if i % 3 == 0 else None
+        atoms = ["{A}", "lit"] + ["{:%s:}" % nm for nm in names] + (["{%s}" % fake] if fake else [])
+        rng.shuffle(atoms)
+        t = ", ".join(atoms)
+        params = [(nm, rng.choice([P.value(rng.choice([1, None, "v", True])), P.option("B"), P.option("C", dflt=P.value(0))]))
+                  for nm in names]
+        tn = P.template(t, params)
+        root = tn if rng.random() < 0.6 else P.dataset([("t", tn)])
+        meta = {"c09": [], "t": t}
+        for o in [{"A": 1, "B": 2}, {"B": "b"}, {"A": "x{B}", "B": 3, "C": 4}, {"A": "a"}]:
+            if fake:
+                o = dict(o)
+                if rng.random() < 0.8:
+                    _put_flat(o, fake, "f")
+            for op in ("evaluate", "keys", "explain"):
+                P.op(op, root, o)
+            if root == tn:
+                meta["c09"].append({"e": len(P.ops) - 3, "k": len(P.ops) - 2, "x": len(P.ops) - 1, "node": tn})
+            P.op("validate", root, o)
+        items.append((P.to_json(), meta))
+    return items
+
+
+def _put_flat(o, key, v):
+    """a key containing no usable dots is a top-level entry"""
+    o[key] = v
 
 
 def ref_template_keys(s: str) -> List[str]:
@@ -1725,6 +2070,7 @@ def c10_programs(rng, tier) -> List[Item]:
     for p, m in its:
         m["partial_bodies"] = True
     items += its
+    items += dataset_class_items(rng, sizes(tier, 30, 150))
     return items
 
 
@@ -1937,6 +2283,7 @@ def c11_programs(rng, tier) -> List[Item]:
     items += gen_items(rng, cfge, sizes(tier, 60, 600), hist_explain)
     items += pinned_dispatch_items(rng, sizes(tier, 40, 400))
     items += namespace_explain_items(rng, sizes(tier, 20, 150))
+    items += dataset_class_items(rng, sizes(tier, 40, 200))
     return items
 
 
@@ -2128,9 +2475,48 @@ def c12_domain_items(rng, n) -> List[Item]:
     return items
 
 
+MIXED_KEYS = [["x", 1], [None, "x"], [1, None, "y"], [("t", 1), "x"], ["x", ("a",)], [True, "y"], [0, "z", None], ["x", "y"], [2, 1],
+              [("a", 1), ("a", "b")], [None, 0]]
+
+
+def unmatched_switch_items(rng, n) -> List[Item]:
+    """switches, case expressions, abstract datasets and overloads WITHOUT a default whose lookup keys are of mixed,
+    mutually unorderable types (None, str, int, tuple, bool), evaluated with dispatch values that match none of them
+    (and with ones that match, before and after): the failure is the unmatched-switch EvaluationError, nothing is
+    stored, a later matching evaluation succeeds"""
+    items = []
+    for i in range(n):
+        P = Prog()
+        keys = MIXED_KEYS[i % len(MIXED_KEYS)]
+        shape = (i // len(MIXED_KEYS)) % 4
+        branches = [(k, P.option("A") if j == 0 else P.value(f"b{j}")) for j, k in enumerate(keys)]
+        if shape == 0:
+            root = P.switch(P.option("K", bare=True), branches)
+        elif shape == 1:
+            root = P.switch(P.apply(P.option("K"), P.fnvalue("ident")), branches)
+        elif shape == 2:
+            root = P.dataset([], dispatch=P.option("K", bare=True), table=[(k, P.dataset([("v", b)])) for k, b in branches], abstract=True)
+        else:
+            root = P.cached(P.collection("list", [P.switch(P.option("K", bare=True), branches), P.option("B", dflt=P.value(0))]))
+        unmatched = [v for v in ["q", 7, None, ("zz",), False] if not any(v == k for k in keys)][:3]
+        seq = [({"K": keys[0], "A": 1}, False)] + [({"K": v, "A": 1}, True) for v in unmatched] + \
+              [({"A": 1}, False), ({"K": keys[-1], "A": 2}, False), ({"K": unmatched[0]}, True)]
+        recs, exp = [], []
+        for o, is_unmatched in seq:
+            o = {k: (list(v) if isinstance(v, tuple) else v) for k, v in o.items()}      # option values are JSON
+            P.evaluate(root, o)
+            P.evaluate(root, o, cache_off=True)
+            recs.append((len(P.ops) - 2, len(P.ops) - 1))
+            if is_unmatched and not isinstance(o["K"], list):
+                exp.append(len(P.ops) - 2)
+        items.append((P.to_json(), {"fail": recs, "root": root, "root_cid": None, "raising": {}, "expect_switch_error": exp}))
+    return items
+
+
 def c12_programs(rng, tier) -> List[Item]:
     items = corpus_items("C12")
     items += c12_domain_items(rng, sizes(tier, 40, 300))
+    items += unmatched_switch_items(rng, sizes(tier, 44, 220))
     cfg = Cfg(raising=True)
     items += gen_items(rng, cfg, sizes(tier, 350, 4000), hist_failures)
     return items
@@ -2138,6 +2524,11 @@ def c12_programs(rng, tier) -> List[Item]:
 
 def c12_oracle(prog, meta, impl, model):
     out = []
+    for i in meta.get("expect_switch_error", []):
+        a = impl[i] if i < len(impl) else None
+        if isinstance(a, dict) and "r" in a and not (is_err(a) and a["r"][1][-1][0] == "SwitchError"):
+            out.append(("an unmatched switch did not surface as an EvaluationError whose cause chain ends in the "
+                        "unmatched-switch error", i, {"options": prog["ops"][i]["o"], "got": a["r"]}))
     for i, j in meta.get("fail", []):
         a = impl[i]
         if "r" not in a or a["r"][0] == "fuel":
@@ -2246,7 +2637,53 @@ def c16_programs(rng, tier) -> List[Item]:
     items += gen_items(rng, cfg, sizes(tier, 120, 1500), hist_switches)
     cfgx = Cfg(raising=False, all_options=False, templates=False, max_depth=99)
     g = gen_items(rng, cfgx, sizes(tier, 15, 150), hist_switches, n_dicts=2)
-    return items + g + derived_cache_items(rng, sizes(tier, 30, 300)) + log_level_items(rng, sizes(tier, 20, 120))
+    return (items + g + derived_cache_items(rng, sizes(tier, 30, 300)) + log_level_items(rng, sizes(tier, 20, 120))
+            + spelled_switch_items(rng, sizes(tier, 24, 120)))
+
+
+SWITCH_SPELLINGS = [(True, True), (False, False), (1, True), (0, False), ("", False), ("yes", True), (None, False),
+                    ("{DEBUG}", None), ("{FLAGS.OFF}", None), ("{DEBUG2}", None)]
+SWITCH_PATHS = [("cache", "CACHE.DISABLED"), ("cache", "CACHE.DISABLE"), ("effects", "EFFECTS.DISABLED"), ("log", "LOGGING.DISABLED")]
+
+
+def spelled_switch_items(rng, n) -> List[Item]:
+    """every switch given in every spelling an option value can have: literal truthy / falsy values and REFERENCES to
+    other options (`"{DEBUG}"`, `"{FLAGS.OFF}"`, a reference to a reference) that resolve to a truthy or a falsy value:
+    the switch is on exactly when the resolved value is truthy; a switch that resolves to a falsy value changes nothing
+    at all (a warm evaluation is still served from the cache, without body, effect or log record)"""
+    items = []
+    for i in range(n):
+        P = Prog()
+        eff = P.fnvalue(P.free("eff1"))
+        inner = P.dataset([("a", P.option("A"))], effects=[eff])
+        root = inner if i % 2 == 0 else P.dataset([("x", inner), ("b", P.option("B", dflt=P.value(0)))], effects=[P.fnvalue(P.free("eff2"))])
+        which, path = SWITCH_PATHS[i % len(SWITCH_PATHS)]
+        recs, offs = [], []
+        o = {"A": i % 3}
+        P.evaluate(root, o)
+        base = len(P.ops) - 1
+        for spelling, truth in SWITCH_SPELLINGS:
+            o2: Dict[str, Any] = copy.deepcopy(o)
+            _put(o2, "LABREA." + path, spelling)
+            if truth is None:
+                truth = rng.random() < 0.5
+                tv = rng.choice([True, 1, "on"]) if truth else rng.choice([False, 0, "", None])
+                if spelling == "{DEBUG}":
+                    o2["DEBUG"] = tv
+                elif spelling == "{FLAGS.OFF}":
+                    o2["FLAGS"] = {"OFF": tv}
+                else:
+                    o2["DEBUG2"] = "{DEBUG}"
+                    o2["DEBUG"] = tv
+            P.evaluate(root, sort_json(o2))
+            rec = {"base": base, "op": len(P.ops) - 1, "cache": "on", "effects": "on", "log": "on"}
+            if truth:
+                rec[which] = {"cache": "DISABLED", "effects": "opt", "log": "opt"}[which]
+            else:
+                offs.append({"base": base, "op": len(P.ops) - 1, "spelling": spelling, "switch": path})
+            recs.append(rec)
+        items.append((P.to_json(), {"sw": recs, "bodies": _dataset_bodies(P), "sw_off": offs}))
+    return items
 
 
 def log_level_items(rng, n) -> List[Item]:
@@ -2320,6 +2757,15 @@ def c16_oracle(prog, meta, impl, model):
     bodies = meta.get("bodies", {})
     eff_names = {e for b in bodies.values() for e in b["effects"]}
     n_ds = len(bodies)
+    for rec in meta.get("sw_off", []):
+        a, b = impl[rec["base"]], impl[rec["op"]]
+        if not (is_ok(a) and is_ok(b)):
+            continue
+        if b.get("calls") or b.get("log") or any(c[1] == "set" for c in b.get("cache", [])):
+            out.append(("a switch whose value resolves to a falsy one changed the behaviour of a warm evaluation "
+                        "(it was not simply served from the cache)", rec["op"],
+                        {"switch": rec["switch"], "spelling": rec["spelling"], "options": prog["ops"][rec["op"]]["o"],
+                         "calls": b.get("calls", [])[:4], "log": b.get("log", [])[:2]}))
     for rec in meta.get("sw", []):
         a, b = impl[rec["base"]], impl[rec["op"]]
         if "r" not in a or "r" not in b or a["r"][0] == "fuel" or b["r"][0] == "fuel":
